@@ -37,6 +37,18 @@ CLAIMED.update({
          BASE_NOTE + "'fewer than t do not reconstruct' is exercised on >=62-bit groups only (it is not a theorem: it fails exactly when the quotient polynomial vanishes at 0)."),
 })
 
+
+CLAIMED.update({
+ "C11": ("Theorems (Properties/C11.v): element_from_bytes accepts exactly the byte strings whose integer v satisfies 1<=v<p and v^q mod p = 1 (both byte orders); exp_from_bytes exactly v<q; every composite reader (ciphertext, keys, Schnorr, CP, all StrandVector wrappers, ShuffleProof) succeeds only if every embedded element is a member and every exponent canonical. Tie: ALL byte strings of length 0..1 and sampled/all 2-byte strings on p=23/2039/16-bit, boundary integers at 2048 bits, composites with one invalid component; ristretto judged against curve25519-dalek directly.",
+         BASE_NOTE + "member <=> quadratic residue is not proved (the code checks Euler's criterion, which is what the theorem states); ristretto point validity is dalek's (oracle)."),
+ "C12": ("Theorems (Properties/C12.v): for all 14 wire types of both multiplicative backends: decode(encode v ++ rest) = (v, rest) (so decode.encode = id, appended bytes rejected, encode injective) and every strict prefix of an encoding is rejected — generic codec lemmas + per-type instances incl. ShuffleProof and the five vector wrappers. Tie: implementation bytes == Gallina writer bytes for boundary and random values of every type on 23/16-bit/62-bit/2048-bit sets; appended / truncated / bit-flipped encodings decode to what the model says.",
+         BASE_NOTE + "Sizes: values below 2^(8N) with N <= 2^32-1 and vectors shorter than 2^32 (u32 prefixes exact). ristretto fixed-width formats: implementation only."),
+ "C13": ("Theorems (Properties/C13.v): no reader of any wire type returns Panic on ANY byte string; decode-then-verify: any decodable shuffle proof with any decodable ciphertext lists (any lengths) and locally derived generators gives a decision; wrong component counts => Ok false for arbitrary contents. Tie: random / bit-flipped / truncated / extended / length-prefix-tampered inputs for every type: outcome class equals the model's, under catch_unwind with a counting allocator (peak <= 64*len + 256 KiB); check_proof on all vector-length combinations, N=0, mismatched lists.",
+         BASE_NOTE + "Memory use is measured, not proved (no allocation theorem). Sigma verifiers are total Gallina functions in the model; the tie shows the implementation agrees. Model follows the repaired decoder/verifier (fix: commits in /repo)."),
+ "C16": ("Theorems (Properties/C16.v): challenge-input bytes are independent of map insertion/iteration order; every transcript (Schnorr, CP, ciphertext-bound contexts, shuffle prefix, per-index input, final shuffle input) is injective in every item; equal challenges for different items exhibit an explicit hash_to_exp collision; distinct counters give distinct inputs. Tie: hash_to_exp, sigma challenges, shuffle_us (N<=64) and the final challenge equal the Gallina SHA-512 (FIPS vectors kernel-checked) over the model transcript, on all parameter sets and both byte orders; fresh process per call; perturbation battery.",
+         BASE_NOTE + "Collision resistance of SHA-512 mod q is not assumed anywhere; 32-bit counter width (wasm32) cannot be exhibited in this sandbox."),
+})
+
 src_commits = subprocess.run(["git", "-C", "/repo", "log", "--format=%h %s"], capture_output=True, text=True).stdout.splitlines()
 hooks = [l.split()[0] for l in src_commits if "verif hook" in l]
 man = {
